@@ -1,1 +1,110 @@
-(* placeholder, being written *)
+(* Props/Properties_C16.v — property C16: stop between two API calls, re-attach to the manager block
+   with imb_set_pointers_mb_mgr(ptr, flags, 0) (block and job buffers mapped at the same addresses),
+   flush: every job in flight comes back, in order, completed; the manager stays usable.
+
+   Statements are about Mgr/Reattach.v (image of lib/x86_64/alloc.c, statement list regenerated into
+   Gen/GenReset.v on every run) and the ring model of C05 (Mgr/Ring.v).  Proofs: Proofs/ReattachProofs.v.
+
+   PARTIAL by nature: the model has no address spaces.  That the recomputed pointers denote the
+   same memory is a hypothesis of the property (same addresses); that nothing inside the block
+   points into the library image is covered statically only by field classification
+   ([no_library_pointers_in_ooo_partial]) and dynamically by harness/k16_reattach.c (fork and exec
+   with the library relocated). *)
+From Coq Require Import NArith ZArith List String Bool.
+From IMB Require Import Gen.GenConsts Gen.GenLayout Gen.GenReset Mgr.Ring Mgr.Reset Mgr.Reattach
+                        Proofs.RingArith Proofs.RingProofs Proofs.ResetProofs Proofs.ReattachProofs.
+Import ListNotations.
+Local Open Scope N_scope.
+
+(* FOR ALL manager states: re-attaching changes nothing of the ring except the error code (:= 0) —
+   earliest_job, next_job, every slot — and nothing of any OOO manager outside the 8 road-block
+   bytes; in particular the scheduling image below each road block is untouched. *)
+Theorem reattach_preserves_scheduling_state : forall cpu flags base s,
+  m_ring (reattach cpu flags base s) = set_errno 0%Z (m_ring s) /\
+  (forall field, agree_on (outside_rb field) (m_ooo (reattach cpu flags base s) field) (m_ooo s field)) /\
+  (forall field, agree_on (in_range 0 (rb_off_of field)) (m_ooo (reattach cpu flags base s) field) (m_ooo s field)).
+Proof. exact reattach_preserves_scheduling_state_thm. Qed.
+Print Assumptions reattach_preserves_scheduling_state.
+
+(* The OOO pointers after re-attaching at [base] are base + cumulative aligned sizes: exactly the
+   values alloc_mb_mgr() computed for a block at the same base, whatever the state and the flags. *)
+Theorem reattach_pointers_same_base : forall cpu flags flags' base s garbage field,
+  m_ptrs (reattach cpu flags base s) field =
+  match ptr_offset field with Some o => base + o | None => m_ptrs s field end /\
+  (ptr_offset field <> None ->
+   m_ptrs (reattach cpu flags base s) field = m_ptrs (alloc cpu flags' base garbage) field).
+Proof. exact reattach_pointers_same_base_thm. Qed.
+Print Assumptions reattach_pointers_same_base.
+
+(* FINITE: the pointer layout puts every manager of ooo_mgr_table inside the block, after the
+   IMB_MGR structure, 64-byte aligned relative to the base, road block inside its own region, no
+   two regions overlapping, one pointer per table entry. *)
+Theorem pointer_layout_sound :
+  forallb layout_entry_ok ooo_offsets = true /\ disjoint_sorted ooo_offsets = true /\
+  map fst ooo_offsets = table_fields /\ nodupb table_fields = true.
+Proof. exact pointer_layout_ok. Qed.
+Print Assumptions pointer_layout_sound.
+
+(* Re-attaching re-binds the handlers: for a manager whose used_arch is a compiled architecture
+   the CPU supports, the function-pointer fields afterwards are those of the variant selected by
+   (used_arch, flags stored in the block, CPU) — the variant that parked the jobs when the CPU and
+   the stored flags are unchanged.  (init_*_internal runs BEFORE ptr->flags is overwritten: new
+   flags do not take effect on the handlers until the next init.) *)
+Theorem reattach_rebinds_handlers : forall cpu flags base s a,
+  In a arch_inits -> m_arch s = arch_id a ->
+  has_flags (m_features s) (ai_req a) = true ->
+  has_flags (feature_adjust (m_flags s) cpu) (ai_req a) = true ->
+  m_bound (reattach cpu flags base s) = Some (variant_for cpu (m_flags s) a) /\
+  m_arch (reattach cpu flags base s) = m_arch s.
+Proof. exact reattach_rebinds_handlers_thm. Qed.
+Print Assumptions reattach_rebinds_handlers.
+
+(* FINITE: init_mb_mgr_<variant>_internal of every compiled variant assigns every function-pointer
+   field of IMB_MGR except the user's self-test callback. *)
+Theorem handlers_all_rebound :
+  forallb (fun v => forallb (fun f => mem f (v_bound v) || mem f user_fnptrs) mgr_fnptrs) variants = true.
+Proof. exact handlers_complete. Qed.
+Print Assumptions handlers_all_rebound.
+
+(* FOR ALL histories of API calls from an initialised manager (under the oracle/caller contract of
+   C05), FOR EVERY crash point k between two calls: re-attach (any flags, any base), then flush as
+   many times as jobs were pending (the out-of-order managers completing what flush asks for —
+   [ops_ok] on the re-attached ring): the jobs handed back are exactly the jobs in flight at the
+   crash point, in submission order, each with a completed status; afterwards the queue is
+   empty, one more flush returns nothing, and the ring is an empty ring again, so the C05
+   theorems apply to everything that follows (the manager remains fully usable). *)
+Local Notation SZ := SIZEOF_IMB_JOB.
+Local Notation NJ := IMB_MAX_JOBS.
+Local Notation MAXB := IMB_MAX_BURST_SIZE.
+Local Notation trace := (trace SZ NJ MAXB).
+Local Notation final := (final SZ NJ MAXB).
+Local Notation ops_ok := (ops_ok SZ NJ MAXB).
+Local Notation pending_count := (pending_count SZ NJ MAXB).
+Local Notation stepr := (stepr SZ NJ MAXB).
+Local Notation empty_at := (empty_at SZ NJ).
+Theorem crash_flush_returns_all_in_order :
+  forall (s0 : st) (m : Z) (ops : list op) (k : nat) (cpu flags base : N) (M : mgr) (Ds : list (list Z)),
+  empty_at s0 m -> ops_ok s0 ops = true ->
+  m_ring M = final s0 (firstn k ops) ->
+  let pre := firstn k ops in
+  let R := m_ring (reattach cpu flags base M) in
+  ops_ok R (map Flush Ds) = true ->
+  Z.of_nat (List.length Ds) = pending_count s0 pre ->
+  let tr := trace R (map Flush Ds) in
+  all_returned tr = skipn (List.length (all_returned (trace s0 pre))) (all_accepted (trace s0 pre)) /\
+  Forall (fun j => (IMB_STATUS_COMPLETED <= jstat j)%Z) (all_jobs tr) /\
+  queue_sz SZ NJ (final R (map Flush Ds)) = 0%Z /\
+  (exists m', empty_at (final R (map Flush Ds)) m') /\
+  (forall D, snd (stepr (final R (map Flush Ds)) (Flush D)) = OJob None).
+Proof. exact crash_flush_returns_all_in_order_thm. Qed.
+Print Assumptions crash_flush_returns_all_in_order.
+
+(* PARTIAL (static half of the address-space question), FINITE over Gen/GenLayout.v: every
+   pointer-typed field of every MB_MGR_*_OOO struct is classified as pointing to caller memory or
+   to the manager block itself, none into the library; no OOO struct holds a function pointer. *)
+Theorem no_library_pointers_in_ooo_partial :
+  forall r l, In r ooo_layouts -> In l (r_leaves r) ->
+    (l_kind l = KPtr -> ptr_class (r_name r) (l_path l) = Some PCaller \/ ptr_class (r_name r) (l_path l) = Some PManager) /\
+    l_kind l <> KFnPtr.
+Proof. exact no_library_pointers_in_ooo_thm. Qed.
+Print Assumptions no_library_pointers_in_ooo_partial.
